@@ -208,34 +208,9 @@ def atomsOrder (h : TupleHash) (m : MolView) : Option (List (Nat × Nat)) :=
 /-- CPython instance used by the driver -/
 def atomsOrderPy (m : MolView) : Option (List (Nat × Nat)) := atomsOrder pyHashTuple m
 
-/-! ## `MoleculeStereo._chiral_morgan` — the label-free shortcut
-
-```python
-stereo_atoms = {n for n, a in self.atoms() if a.stereo is not None}
-stereo_bonds = {n for n, mb in self._bonds.items() if any(b.stereo is not None for m, b in mb.items())}
-if not stereo_atoms and not stereo_bonds:
-    return self.atoms_order
-…  (stereo-aware differentiation: NOT modelled; validated relationally on the real code)
-```
-`_smiles_order()` — the weights the writer uses for `str(mol)` — is `_chiral_morgan.__getitem__`. -/
-
-inductive ChiralMorgan where
-  | ranks (r : List (Nat × Nat))
-  | keyError
-  | notModelled            -- the molecule carries a stereo label
-  deriving Repr, DecidableEq
-
-/-- atoms whose adjacency row contains a labelled bond -/
+/-- atoms whose adjacency row contains a labelled bond (`stereo_bonds` of `_chiral_morgan`, see `Model/ChiralMorgan.lean`) -/
 def stereoBondAtoms (bonds : List (Nat × List (Nat × Bond))) : List Nat :=
   (bonds.filter fun row => row.2.any fun mb => mb.2.stereo.isSome).map (·.1)
-
-/-- `stereoAtoms` = the atoms with `a.stereo is not None` -/
-def chiralMorgan (h : TupleHash) (m : MolView) (stereoAtoms : List Nat) : ChiralMorgan :=
-  if stereoAtoms.isEmpty && (stereoBondAtoms m.bonds).isEmpty then
-    match atomsOrder h m with
-    | some r => .ranks r
-    | none => .keyError
-  else .notModelled
 
 /-! ## `Smiles.__eq__`, `Smiles.__hash__` (shapes regenerated from the source) -/
 
